@@ -68,6 +68,9 @@ def menu():
         (0x4444, 0x0003, 5, 6, 4, 0x01, 0, payload(65528)),
         (0x5555, 0x0004, 7, 8, 5, 0x81, 9, b"err"),
         (0xFFFF, 0x8100, 0, 9, 1, 0x02, 0, bytes([0xC0, 0, 0, 0, 0, 0, 0, 0, 0, 0, 0, 0])),
+        # the two TCP "magic cookie" messages: ordinary messages as far as a datagram is concerned
+        (0xFFFF, 0x0000, 0xDEAD, 0xBEEF, 1, 0x01, 0, b""),
+        (0xFFFF, 0x8000, 0xDEAD, 0xBEEF, 1, 0x02, 0, b""),
     ]
 
 
@@ -280,7 +283,7 @@ def check(ctx):
     maxlen = 4 if ctx.thorough else 3
     nd = 0
     for k in range(0, maxlen + 1):
-        for seq in itertools.product(range(6), repeat=k):
+        for seq in itertools.product(range(len(menu())), repeat=k):
             for t, tail in enumerate(TAILS):
                 n += 1
                 nd += 1
